@@ -8,10 +8,11 @@ packed / numpy / Lean model: the model sees the unprefixed protocol line and ans
 answers, so a NUMPY-DIFF observation always shows up as a difference).
 
 The twin is numpy restricted to the domain the class documents by explicit range checks
-(slice start in [0, size], slice stop in [-size, size] after normalisation, step 1, integer indices
-in [0, size), values of the right length, no broadcasting, `sum(shape=…)` only on aligned arrays
-with the documented shape rules): outside this domain the twin raises as well.  Anything the class
-rejects *inside* the domain, or answers differently, is flagged.
+(slice start in [0, size], slice stop <= size (negative stops count from the end), step 1, integer
+indices in [0, size), values of the right length, no broadcasting, packed operands with the same bit
+alignment, `sum(shape=…)` only on aligned arrays with the documented shape rules and axis None / last):
+outside this domain the twin raises as well.  Anything the class rejects *inside* the domain, or
+answers differently, is flagged.
 """
 import numpy as np
 
@@ -195,7 +196,7 @@ class PackedOps(object):
                 raise Unsupported('start')
             if hi is not None:
                 e = hi + n if hi < 0 else hi
-                if e > n or e < 0:
+                if e > n:
                     raise Unsupported('stop')
             if step is not None and step != 1:
                 raise Unsupported('step')
@@ -302,8 +303,8 @@ class PackedOps(object):
                 raise Unsupported('axis')
             if len(shape) == 0 or int(np.prod(shape)) != t.size or shape[-1] % 8 != 0:
                 raise Unsupported('shape')
-            if axis == 0:
-                raise Unsupported('axis 0')
+            if axis is not None and axis != len(shape) - 1:
+                raise Unsupported('only the last axis')
             return np.sum(t.reshape(shape), axis=axis, dtype=np.int64)
 
         def show(r):
@@ -369,7 +370,7 @@ class PackedOps(object):
                 raise Unsupported('start')
             if hi is not None:
                 e = hi + n if hi < 0 else hi
-                if e > n or e < 0:
+                if e > n:
                     raise Unsupported('stop')
             if kind != 'bool' and len(tv) != len(t[lo:hi]):
                 raise Unsupported('length')           # no broadcasting
